@@ -308,6 +308,7 @@ func (search *Search) quiescence(aPosGen *Generator, alpha, beta, depth int,
 		aPosGen.PopMove()
 
 		// a capture tree can take minutes: notice a stop request here too, not only between full-width moves
+		verifSync(7, depth, 0)
 		select {
 		case <-search.stop:
 			search.interrupted = true
